@@ -12,19 +12,19 @@ pred partDecision(p, data) := ite(p.isString, numOp(p.op, strval(data[p.field]),
 pred partHandled(p, data) := dom(data, p.field) && data[p.field] != nil && ite(p.isString, hasType(data[p.field], string), isNumKind(data[p.field]) && (isIntKind(data[p.field]) ==> -9007199254740992 <= intval(data[p.field]) && intval(data[p.field]) <= 9007199254740992))
 
 func tryFastCompare
-  props C12 C05 C17
+  props C12 C05 C17 C06 C13
   ensures literal-exactly-representable: result != nil ==> fcOK(result)
 
 func compareNum
-  props C12 C05 C17
+  props C12 C05 C17 C06 C13
   ensures operator-table: result <==> numOp(op, a, b)
 
 func compareStr
-  props C12 C05 C17
+  props C12 C05 C17 C06 C13
   ensures operator-table: result <==> numOp(op, a, b)
 
 func toFloat64Fast
-  props C12 C05 C17
+  props C12 C05 C17 C06 C13
   option rnd64
   ensures floats-exact: hasType(v, float64) || hasType(v, float32) ==> result1 && result0 == realval(v)
   ensures ints-through-float64: result1 && isIntKind(v) ==> result0 == rnd64(intval(v))
@@ -34,7 +34,7 @@ func toFloat64Fast
   ensures big-ints-fall-back: isIntKind(v) && (intval(v) > 9007199254740992 || intval(v) < -9007199254740992) ==> !result1
 
 func (*fastCompare).eval
-  props C12 C05 C17
+  props C12 C05 C17 C06 C13
   option rnd64
   requires fcOK(fc)
   ensures not-a-map-falls-back: !hasType(env, map[string]any) ==> !result1
@@ -45,7 +45,7 @@ func (*fastCompare).eval
   ensures integer-decision-is-exact: result1 && !fc.isString && isIntKind(unbox(env, map[string]any)[fc.field]) ==> forallv(L, 0, fc.numLit == rnd64(L) ==> (result0 <==> numOp(fc.op, intval(unbox(env, map[string]any)[fc.field]), L)))
 
 func (*fastCompare).evalMap
-  props C12 C05 C17
+  props C12 C05 C17 C06 C13
   option rnd64
   requires fcOK(fc)
   ensures handled-iff: result1 <==> partHandled(fc, data)
@@ -57,7 +57,7 @@ func (*fastCompare).evalMap
   ensures integer-decision-is-exact: result1 && !fc.isString && isIntKind(data[fc.field]) ==> forallv(L, 0, fc.numLit == rnd64(L) ==> (result0 <==> numOp(fc.op, intval(data[fc.field]), L)))
 
 func (*fastCompound).eval
-  props C12 C05 C17
+  props C12 C05 C17 C06 C13
   option rnd64
   requires forall(i, 0, len(fc.parts), fcOK(fc.parts[i]))
   ensures not-a-map-falls-back: !hasType(env, map[string]any) ==> !result1
@@ -69,7 +69,7 @@ func (*fastCompound).eval
   loop 1 invariant fc.op != "AND" ==> (result <==> exists(i, 0, $i, partDecision(fc.parts[i], data)))
 
 func tryFastCompound
-  props C12 C05 C06 C17
+  props C12 C05 C06 C17 C13
   ensures mixed-and-or-is-left-to-the-general-evaluator: strings.Contains(expression, "&&") && strings.Contains(expression, "||") ==> result == nil
   ensures grouping-is-left-to-the-general-evaluator: strings.ContainsAny(expression, "()") ==> result == nil
   ensures the-chain-operator-is-the-one-written: result != nil ==> (result.op == "AND" <==> strings.Contains(expression, "&&")) && (result.op == "OR" <==> strings.Contains(expression, "||"))
@@ -78,14 +78,14 @@ func tryFastCompound
   loop 1 invariant forall(i, 0, len(compares), fcOK(compares[i]))
 
 func (*ExprCondition).Evaluate
-  props C12 C05 C17
+  props C12 C05 C17 C06 C13
   requires ec.fast != nil ==> fcOK(ec.fast)
   requires ec.compound != nil ==> forall(i, 0, len(ec.compound.parts), fcOK(ec.compound.parts[i]))
   modifies *
   ensures true
 
 func matchesLikePattern
-  props C13
+  props C13 C05 C06 C12 C17
   option safety
   ensures empty-pattern-matches-only-empty-text: len(pattern) == 0 ==> (result <==> len(text) == 0)
   ensures empty-text-needs-all-percent: len(text) == 0 ==> (result <==> forall(i, 0, len(pattern), pattern[i] == 37))
@@ -97,7 +97,7 @@ func matchesLikePattern
   loop 2 invariant 0 <= pi && (len(text) == 0 ==> forall(i, 0, pi, pattern[i] == 37))
 
 func isNilValue
-  props C13
+  props C13 C05 C06 C12 C17
   ensures untyped-nil-is-null: v == nil ==> result
 @*/
 
